@@ -4,7 +4,7 @@ from __future__ import annotations
 import ast
 import itertools
 
-from ..core import AnalysisError, func_params, Module, call_attr, call_name, dotted, norm, parent, qualname, short
+from ..core import AnalysisError, func_params, Module, call_attr, call_name, calls_in, dotted, norm, parent, qualname, short
 from ..driver import Knockout, sub_nth, sub_once
 from ..report import Ctx
 from ..rules import numeric, shapes
@@ -208,6 +208,36 @@ def rule_equivalency_canonical(ctx: Ctx) -> None:
         raise AnalysisError("mixed_stabilizer_equivalency: no tableau comparison found")
 
 
+def rule_graph_from_matrix(ctx: Ctx) -> None:
+    """graph.from-matrix: a conversion that turns an adjacency *matrix* into a graph keeps every vertex, in index order: it builds the graph
+    with nx.from_numpy_array (or adds nodes range(n) before the edges).  A graph built from the list of non-zero entries only has the
+    vertices that occur in an edge, in the order the edges are met: isolated qubits disappear and the qubit numbering of every later
+    conversion (which follows graph.nodes()) is permuted."""
+    repo = ctx.repo
+    n = 0
+    for rel in ("graphiq/state.py", SRC):
+        m = repo.module(rel)
+        for fn in m.functions():
+            for c in [x for x in ast.walk(fn) if isinstance(x, ast.Call) and call_name(x) in ("nx.Graph", "networkx.Graph") and x.args]:
+                a = c.args[0]
+                from ..core import expand as _expand
+                t = norm(_expand(fn, a))
+                from_edges = ("nonzero" in t or "argwhere" in t or "zip(" in t) and "from_numpy_array" not in t
+                if not from_edges:
+                    continue
+                n += 1
+                ctx.touch(m, fn)
+                adds_nodes = any(call_attr(x) == "add_nodes_from" for x in calls_in(fn))
+                if adds_nodes:
+                    ctx.ok("graph.from-matrix", m, c, what=f"{qualname(fn)}: edge list plus explicit nodes")
+                else:
+                    ctx.fail("graph.from-matrix", m, c,
+                             f"{qualname(fn)} builds the graph of an adjacency matrix from its non-zero entries (`{short(c, 70)}`): vertices without an edge are dropped and "
+                             f"the node order becomes the order in which edges are met (ring 0-1-2-3: nodes [0, 1, 3, 2]), while every later conversion numbers qubits "
+                             f"by graph.nodes()", func=qualname(fn), construct=f"{qualname(fn)}: graph built from an edge list of a matrix")
+    ctx.ok_abstract("graph.from-matrix", f"{n} graphs built from the non-zero entries of a matrix")
+
+
 def rule_inverse_side(ctx: Ctx) -> None:
     """conv.inverse-side: _graph_finder brings the generators to the form [I | A] by multiplying with the inverse of the X block: A = X^-1 Z.
     Written on transposes, A^T = Z^T (X^T)^-1.  So the matrix that is inverted and the side it is multiplied from go together: `z.T @ inv(x.T)`
@@ -285,6 +315,7 @@ def rule_no_sign_precondition(ctx: Ctx) -> None:
 def run(ctx: Ctx) -> None:
     rule_no_sign_precondition(ctx)
     rule_inverse_side(ctx)
+    rule_graph_from_matrix(ctx)
     from .c17 import rule_pauli_from_bits
     rule_pauli_from_bits(ctx)
     rule_equivalency_canonical(ctx)
@@ -432,6 +463,7 @@ def _filtered_positions(src: str) -> str:
 
 
 KNOCKOUTS = [
+    Knockout("density-to-graph-from-edge-list", "graphiq/state.py", sub_once("            new_rep = Graph(nx.from_numpy_array(new_data))\n", "            rows, cols = np.nonzero(np.triu(new_data))\n            new_rep = Graph(nx.Graph(list(zip(rows.tolist(), cols.tolist()))))\n"), "graph.from-matrix", "edge list"),
     Knockout("graph-finder-inverts-untransposed-block", SRC, sub_once("    x_inv = (np.rint(np.linalg.det(x_mat.T) * np.linalg.inv(x_mat.T)) % 2).astype(int)\n", "    x_inv = (np.rint(np.linalg.det(x_mat) * np.linalg.inv(x_mat)) % 2).astype(int)\n"), "conv.inverse-side", "mismatched sides"),
     Knockout("graph-conversion-refuses-negative-signs", SRC, sub_once("        tableau = input_stabilizer\n        graph = _graph_finder(tableau.x_matrix, tableau.z_matrix)\n", "        tableau = input_stabilizer\n        assert not np.any(tableau.phase), \"Input stabilizer is not a graph state.\"\n        graph = _graph_finder(tableau.x_matrix, tableau.z_matrix)\n"), "convert.no-sign-precondition", "precondition on signs"),
     Knockout("row-reduction-z-block-added-from-other-row", "graphiq/backends/stabilizer/functions/linalg.py", sub_nth("                z_matrix = add_rows(z_matrix, pivot[0], j)\n", "                z_matrix = add_rows(z_matrix, the_ones[0], j)\n", 0), "sibling.xz-rowops", "_row_red_one_step"),
